@@ -89,7 +89,7 @@ def check(ctx):
                    construct="mqtt.pdu.%s/iteration-order" % name,
                    msg="encode() iterates over %s: the order on the wire is not the order of the field (and, for a set, not even deterministic)" % txt)
     ctx.floor("PDU classes with encode/decode", ncls, 14)
-    ctx.floor("layout items compared", nitems, 60)
+    ctx.floor("layout items compared", nitems, 30)
     ctx.count("pdu_classes", ncls)
     ctx.count("primitive_helpers", 6)
     ctx.note("value-level inverse property of the primitives on their whole domains is not decided")
